@@ -1,26 +1,31 @@
 #!/bin/bash
-# tools/harmlessall.sh [outfile]: every behaviour-preserving refactoring kept under seeded/harmless*/ against every check
-# whose plan (functions + dependencies) contains the touched function.  Expected: exit 0 everywhere.
+# tools/harmlessall.sh [outfile] [jobs]: every behaviour-preserving refactoring kept under seeded/harmless*/ against every
+# check whose plan (functions + dependencies) contains a function it touches (tools/checks_for_patch.py).
+# Expected: exit 0 everywhere (a DEGRADED line is allowed - it is not an alarm - and is shown in the table).
 cd "$(dirname "$0")/.."
 out=${1:-seeded/HARMLESS.md}
-declare -A M1=( [1]="C01 C02 C05 C06 C18" [2]="C01 C02 C05 C06 C15" [3]="C02 C06 C15" [4]="C13 C07" [5]="C08" [6]="C09 C11" [7]="C10"
-                [8]="C14 C15 C16" [9]="C16" [10]="C17" [11]="C19" [12]="C18" )
-declare -A M2=( [1]="C01 C02 C05 C06" [2]="C03 C04 C08 C18" [3]="C03 C04 C08" [4]="C03 C04 C08 C18" [5]="C03 C04 C08" [6]="C03 C04 C08"
-                [7]="C08" [8]="C12" [9]="C10" [10]="C11" [11]="C17" [12]="C15" )
-tmp=$(mktemp)
-echo "| refactoring | what | checks run | result |" > $tmp
-echo "|---|---|---|---|" >> $tmp
-bad=0
-for b in harmless harmless2; do
-  for i in 1 2 3 4 5 6 7 8 9 10 11 12; do
-    if [ $b = harmless ]; then cs=${M1[$i]}; else cs=${M2[$i]}; fi
-    res=$(tools/seedtest.sh seeded/$b/refactor$i.diff $cs 2>&1)
-    n=$(echo "$res" | grep -cE "^C[0-9]+:.*exit=0")
-    want=$(echo $cs | wc -w)
-    if [ "$n" = "$want" ] && ! echo "$res" | grep -qE "VIOLATION|UNDECIDED|CHECKER-ERROR"; then r="all exit 0"; else r="ALARM: $(echo "$res" | grep -E "VIOLATION|UNDECIDED|CHECKER|failed-ob" | head -3 | tr '\n' ';' | sed 's/|/\\|/g')"; bad=1; fi
-    echo "| $b/refactor$i | $(head -1 seeded/$b/refactor$i.txt | cut -c1-140 | sed 's/|/\\|/g') | $cs | $r |" >> $tmp
-    echo "$b/refactor$i: $r"
-  done
-done
-mv $tmp $out
-exit $bad
+jobs=${2:-3}
+tmpd=$(mktemp -d)
+one() {
+  f=$1; tmpd=$2
+  b=$(basename $(dirname $f)); n=$(basename $f .diff)
+  cs=$(python3-vt tools/checks_for_patch.py $f 2>/dev/null)
+  if [ -z "$cs" ]; then r="no check has this function in its plan"; else
+    res=""
+    d=$(mktemp -d /tmp/hl-XXXX); cp -r /repo/ECAgent $d/ECAgent; (cd $d && patch -s -p1 < $(readlink -f $f)) || res="patch failed"
+    for c in $cs; do res="$res
+$(VERIF_OUTDIR=$d/outdir VERIF_REPO=$d ./check $c --tier quick 2>&1 | grep -E "VIOLATION|UNDECIDED|CHECKER|DEGRADED|failed-obligation|^C[0-9]+:")"; done
+    rm -rf $d
+    n_ok=$(echo "$res" | grep -cE "^C[0-9]+:.*exit=0"); want=$(echo $cs | wc -w)
+    if [ "$n_ok" = "$want" ] && ! echo "$res" | grep -qE "VIOLATION|UNDECIDED|CHECKER-ERROR|patch failed"; then
+      r="all exit 0"; echo "$res" | grep -q DEGRADED && r="all exit 0 (DEGRADED: $(echo "$res" | grep DEGRADED | head -1 | cut -c1-160 | sed 's/|/\\|/g'))"
+    else r="ALARM: $(echo "$res" | grep -E "VIOLATION|UNDECIDED|CHECKER|failed-ob|patch failed" | head -3 | tr '\n' ';' | sed 's/|/\\|/g')"; fi
+  fi
+  echo "| $b/$n | $(head -1 ${f%.diff}.txt | cut -c1-150 | sed 's/|/\\|/g') | $cs | $r |" > $tmpd/$b-$n.row
+  echo "$b/$n [$cs]: $r"
+}
+export -f one
+ls seeded/harmless*/refactor*.diff | sort -V | xargs -P $jobs -I{} bash -c 'one {} '"$tmpd"
+{ echo "| refactoring | what | checks run | result |"; echo "|---|---|---|---|"; cat $(ls $tmpd/*.row | sort -V); } > $out
+bad=$(grep -c "ALARM" $out); rm -rf $tmpd
+echo "alarms: $bad"; [ "$bad" = 0 ]
